@@ -76,6 +76,8 @@ class Unit:
         return getattr(self.node, "lineno", 0)
 
     def params(self) -> List[ast.arg]:
+        if isinstance(self.node, ast.GeneratorExp):
+            return []
         a = self.node.args  # type: ignore[attr-defined]
         out = list(a.posonlyargs) + list(a.args)
         if a.vararg:
@@ -132,6 +134,7 @@ class Module:
         self.short = name.split(".", 1)[1] if "." in name else name
         self.path = path
         self.relpath = relpath
+        self.is_package = os.path.basename(path) == "__init__.py"
         with open(path, "r", encoding="utf-8") as fh:
             self.source = fh.read()
         try:
@@ -151,7 +154,8 @@ class Module:
         if node.level == 0:
             return node.module or ""
         base = self.name.split(".")
-        base = base[: len(base) - node.level]
+        level = node.level - 1 if self.is_package else node.level
+        base = base[: len(base) - level]
         if node.module:
             base.append(node.module)
         return ".".join(base)
